@@ -44,46 +44,100 @@ def _key_any(kinds):
     return _key_event(kinds, ok_only=False)
 
 
-PLANS = {
-    "C01": dict(level="model_checking", families=[("construct", 14, 16)],
-                rule="every subset (>=3 points) of the 3x3 grid and (>=4 points) of the unit cube, plus seeded "
-                     "lattice samples D=2..5 (general position / random / degenerate / clustered / hypercube), "
-                     "crossed round-robin with ctor x guarantee x ordering x dedup x simplex x retry x kernel, both "
-                     "build profiles; distinct non-trivial = distinct (D,kernel,profile,ctor,guarantee,options,point "
-                     "list) whose construction returned Ok and whose result passed the full TLA+ oracle",
-                nontrivial=_key_construct),
-    "C02": dict(level="model_checking", families=[("insert", 14, 16)],
-                rule="seeded insertion histories (empty or constructed start; random/degenerate/collinear-prefix/"
-                     "general-position lattice points; duplicates, reused uuids; policy changes mid-history), "
-                     "D=2..5, both kernels, both profiles; distinct non-trivial = distinct Insert events that "
-                     "reported Inserted (args+history tag)",
-                nontrivial=_key_event({"Insert"})),
-    "C04": dict(level="model_checking", families=[("repair", 14, 16), ("construct", 6, 16)],
-                rule="Verdicts events on constructed, incrementally built, flipped-away and post-removal states; "
-                     "distinct non-trivial = distinct Verdicts events (history tag + position)",
-                nontrivial=None),
-    "C06": dict(level="model_checking", families=[("remove", 14, 16)],
-                rule="removal of randomly chosen vertices down to the empty triangulation, unknown vertices, "
-                     "re-insertion of removed positions; distinct non-trivial = distinct successful Remove events",
-                nontrivial=_key_event({"Remove"})),
-    "C07": dict(level="model_checking", families=[("flips", 14, 16)],
-                rule="shuffled enumeration of every facet/ridge/edge/triangle/cell/vertex handle position "
-                     "(incl. out-of-range, i=j, stale, foreign) each followed by its inverse; distinct non-trivial = "
-                     "distinct successful Flip events",
-                nontrivial=_key_event({"Flip"})),
-    "C08": dict(level="model_checking", families=[("repair", 14, 16)],
-                rule="repair (both entry points, seeded/unseeded heuristic) from flip walks, inserts and removals "
-                     "with repair disabled; distinct non-trivial = distinct successful Repair events",
-                nontrivial=_key_event({"Repair"})),
-    "C03": dict(level="fault_enumeration", families=[("remove", 8, 16), ("insert", 8, 16), ("flips", 8, 16), ("repair", 8, 16)],
-                rule="every mutating call that returned Err or Skipped in the insert/remove/flip/repair histories "
-                     "(natural failures: duplicates, reused uuids, degenerate points, non-flippable / boundary / "
-                     "out-of-range / stale / foreign handles, repair failures); distinct non-trivial = distinct "
-                     "failed mutating events (kind, args, history tag)",
-                nontrivial=lambda e: ((e["ev"], json.dumps(e.get("args"), sort_keys=True), e.get("tag"))
-                                      if e["ev"] in ("Insert", "Remove", "Flip", "Repair")
-                                      and e.get("res", {}).get("kind") in ("Err", "Skipped") else None)),
-}
+RE_HIST = re.compile(r'<<"HIST", "(.*)">>')
+RE_MC_STATES = re.compile(r"(\d+) states generated, (\d+) distinct states found")
+
+
+def edit_invalidates():
+    """which Edit-API cache semantics the code under test has is a CONSTANT of the model; it is
+    fixed in spec/Trace_Caches.cfg (the value that matches the repository as repaired)"""
+    txt = open(os.path.join(os.path.dirname(os.path.dirname(os.path.abspath(__file__))), "spec", "Trace_Caches.cfg")).read()
+    return "EDIT_INVALIDATES = TRUE" in txt
+
+
+def stage_mc(module, cfg, workers=8, timeout=1500, expect_violation=None, label=None):
+    """a TLC model-checking run of a mechanism model; states are added to the evidence"""
+    def run(ctx, cov):
+        t0 = time.time()
+        meta = os.path.join(ctx.wdir, "mc_" + cfg.replace(".cfg", ""))
+        rc, txt = ctx.run_tlc(module, cfg, meta, workers=workers, timeout=timeout, xmx="6g", extra=["-coverage", "1"])
+        if rc is None:
+            return {"tool_error": "TLC timeout in %s/%s" % (module, cfg)}
+        m = RE_MC_STATES.findall(txt)
+        gen_s, dist = (int(m[-1][0]), int(m[-1][1])) if m else (0, 0)
+        viol = re.findall(r"Error: Invariant (\w+) is violated", txt) + re.findall(r"Error: Temporal properties were violated", txt)
+        ok = "Model checking completed. No error has been found." in txt
+        cov["states"] += dist
+        cov["transitions"] += gen_s
+        # vacuity guard: every action of the model must have been taken at least once
+        never = re.findall(r"<(\w+) line \d+, col \d+ to line \d+, col \d+ of module \w+>: 0:0", txt)
+        cov["model_runs"].append({"module": module, "cfg": cfg, "distinct_states": dist, "states_generated": gen_s,
+                                  "violated": viol, "actions_never_taken": never, "wall_s": round(time.time() - t0, 1)})
+        ctx.log("MC %s/%s: %d distinct states, violated=%s in %.1fs" % (module, cfg, dist, viol, time.time() - t0))
+        out = {"violations": []}
+        if expect_violation is not None:
+            if not viol or viol[0] not in expect_violation:
+                return {"tool_error": "model %s/%s was expected to exhibit %s (design counterexample) but did not:\n%s"
+                        % (module, cfg, expect_violation, txt[-1500:])}
+            return out
+        if not ok:
+            if viol:
+                rp = os.path.join(ctx.wdir, "replays", "%s_%s.tlc.txt" % (module, cfg))
+                open(rp, "w").write(txt[-20000:])
+                out["violations"].append({"replay": rp, "what": "model %s/%s violates %s" % (module, cfg, viol)})
+                return out
+            return {"tool_error": "TLC failed in %s/%s:\n%s" % (module, cfg, txt[-3000:])}
+        if never:
+            return {"tool_error": "vacuity: actions never taken in %s/%s: %s" % (module, cfg, never)}
+        return out
+    return run
+
+
+def stage_caches(ctx, cov):
+    """Gen_Caches -> histories -> vdrive caches -> Trace_Caches"""
+    import random
+    thorough = ctx.tier == "thorough"
+    depth = 5 if thorough else 4
+    cfgp = os.path.join(ctx.wdir, "Gen_Caches_run.cfg")
+    base = open(os.path.join(ctx.spec, "Gen_Caches.cfg")).read()
+    base = re.sub(r"MaxDepth = \d+", "MaxDepth = %d" % depth, base)
+    base = re.sub(r"EDIT_INVALIDATES = \w+", "EDIT_INVALIDATES = %s" % ("TRUE" if edit_invalidates() else "FALSE"), base)
+    open(cfgp, "w").write(base)
+    t0 = time.time()
+    rc, txt = ctx.run_tlc("Gen_Caches.tla", cfgp, os.path.join(ctx.wdir, "gen_meta"), workers=4, timeout=1500, xmx="6g")
+    if rc is None or "Model checking completed" not in txt:
+        return {"tool_error": "Gen_Caches failed:\n" + (txt or "")[-2000:]}
+    m = RE_MC_STATES.findall(txt)
+    if m:
+        cov["states"] += int(m[-1][1])
+        cov["transitions"] += int(m[-1][0])
+    hs = set()
+    for line in txt.split("\n"):
+        mm = RE_HIST.match(line.strip())
+        if mm:
+            hs.add(mm.group(1).encode().decode("unicode_escape"))
+    by_len = {}
+    for h in hs:
+        by_len.setdefault(len(json.loads(h)), []).append(h)
+    rnd = random.Random(ctx.seed)
+    chosen = []
+    for L in sorted(by_len):
+        xs = sorted(by_len[L])
+        if L < depth:
+            continue                      # prefixes of longer histories
+        if L == depth:
+            chosen += xs
+        else:                             # one step beyond the bound: a seeded sample
+            rnd.shuffle(xs)
+            chosen += xs[: (20000 if thorough else 2500)]
+    ctx.log("Gen_Caches: %d histories (%s) in %.1fs" % (len(chosen), {k: len(v) for k, v in by_len.items()}, time.time() - t0))
+    cov["generated_histories"] = len(chosen)
+    hist = os.path.join(ctx.wdir, "histories.ndjson")
+    open(hist, "w").write("\n".join(chosen) + "\n")
+    outs, err = drive_family(ctx, "caches", 14, ["--hist", hist, "--dim", "2"])
+    if err:
+        return {"tool_error": err}
+    return {"traces": [(o, "Trace_Caches") for o in outs]}
 
 
 def _run(cmd, **kw):
@@ -131,7 +185,7 @@ def execute(plan, ctx):
         result["direct_violations"] += r.get("violations", [])
 
     # 2. drivers -> traces -> TLC
-    traces = []
+    traces = []   # (path, trace module)
     for fam, nq, nt in plan.get("families", []):
         n = nt if thorough else nq
         t0 = time.time()
@@ -139,18 +193,19 @@ def execute(plan, ctx):
         if err:
             return {"tool_error": err}
         ctx.log("drove %s: %d traces in %.1fs" % (fam, len(outs), time.time() - t0))
-        traces += outs
-    for hook in plan.get("extra_drivers", []):
-        outs, err = hook(ctx)
-        if err:
-            return {"tool_error": err}
-        traces += outs
-    traces = [t for t in traces if os.path.getsize(t) > 0]
+        traces += [(o, "Trace_API") for o in outs]
+    for stage in plan.get("stages", []):
+        r = stage(ctx, cov)
+        if r.get("tool_error"):
+            return {"tool_error": r["tool_error"]}
+        traces += r.get("traces", [])
+        result["direct_violations"] += r.get("violations", [])
+    traces = [t for t in traces if os.path.getsize(t[0]) > 0]
     t0 = time.time()
-    module = plan.get("trace_module", "Trace_API")
     with ThreadPoolExecutor(max_workers=max(2, ctx.ncpu - 2)) as ex:
-        outs = list(ex.map(lambda t: ctx.validate_trace(t, module), traces))
+        outs = list(ex.map(lambda t: ctx.validate_trace(t[0], t[1]), traces))
     ctx.log("validated %d traces with TLC in %.1fs" % (len(traces), time.time() - t0))
+    traces = [t[0] for t in traces]
     keys = set()
     nontrivial = plan.get("nontrivial")
     for t, o in zip(traces, outs):
@@ -169,7 +224,7 @@ def execute(plan, ctx):
                 if rk:
                     k2 = e["ev"] + ":" + rk
                     cov["events_by_kind"][k2] = cov["events_by_kind"].get(k2, 0) + 1
-                key = nontrivial(e) if nontrivial else ((e["ev"], e["tag"], n) if e["ev"] == "Verdicts" else None)
+                key = nontrivial(e) if nontrivial else ((e["ev"], e.get("tag"), n) if e["ev"] == "Verdicts" else None)
                 if key is not None:
                     if key not in keys and len(cov["samples"]) < 3:
                         s = {k: e[k] for k in ("ev", "tag", "args", "res") if k in e}
@@ -180,3 +235,59 @@ def execute(plan, ctx):
     if not cov["samples"]:
         cov["samples"].append({"note": "no non-trivial case in this run"})
     return result
+
+
+PLANS = {
+    "C01": dict(level="model_checking", families=[("construct", 14, 16)],
+                rule="every subset (>=3 points) of the 3x3 grid and (>=4 points) of the unit cube, plus seeded "
+                     "lattice samples D=2..5 (general position / random / degenerate / clustered / hypercube), "
+                     "crossed round-robin with ctor x guarantee x ordering x dedup x simplex x retry x kernel, both "
+                     "build profiles; distinct non-trivial = distinct (D,kernel,profile,ctor,guarantee,options,point "
+                     "list) whose construction returned Ok and whose result passed the full TLA+ oracle",
+                nontrivial=_key_construct),
+    "C02": dict(level="model_checking", families=[("insert", 14, 16)],
+                rule="seeded insertion histories (empty or constructed start; random/degenerate/collinear-prefix/"
+                     "general-position lattice points; duplicates, reused uuids; policy changes mid-history), "
+                     "D=2..5, both kernels, both profiles; distinct non-trivial = distinct Insert events that "
+                     "reported Inserted (args+history tag)",
+                nontrivial=_key_event({"Insert"})),
+    "C04": dict(level="model_checking", families=[("repair", 14, 16), ("construct", 6, 16)],
+                rule="Verdicts events on constructed, incrementally built, flipped-away and post-removal states; "
+                     "distinct non-trivial = distinct Verdicts events (history tag + position)",
+                nontrivial=None),
+    "C06": dict(level="model_checking", families=[("remove", 14, 16)],
+                rule="removal of randomly chosen vertices down to the empty triangulation, unknown vertices, "
+                     "re-insertion of removed positions; distinct non-trivial = distinct successful Remove events",
+                nontrivial=_key_event({"Remove"})),
+    "C07": dict(level="model_checking", families=[("flips", 14, 16)],
+                rule="shuffled enumeration of every facet/ridge/edge/triangle/cell/vertex handle position "
+                     "(incl. out-of-range, i=j, stale, foreign) each followed by its inverse; distinct non-trivial = "
+                     "distinct successful Flip events",
+                nontrivial=_key_event({"Flip"})),
+    "C08": dict(level="model_checking", families=[("repair", 14, 16)],
+                rule="repair (both entry points, seeded/unseeded heuristic) from flip walks, inserts and removals "
+                     "with repair disabled; distinct non-trivial = distinct successful Repair events",
+                nontrivial=_key_event({"Repair"})),
+    "C09": dict(level="model_checking", families=[("insert", 8, 16)],
+                stages=[lambda c, v: stage_mc("MC_Caches.tla", ("MC_Caches_fixed.cfg" if c.tier == "thorough" else "MC_Caches_fixed_quick.cfg") if edit_invalidates() else "MC_Caches_pinned.cfg",
+                                              expect_violation=None if edit_invalidates() else ["IndexComplete", "NoDuplicateAccepted"])(c, v),
+                        stage_caches],
+                rule="(i) exhaustive TLC check of the cache mechanism model (2 positions, 2 objects, depth 6); (ii) every "
+                     "history TLC generates from that model up to the depth bound (plus a seeded sample one step beyond) "
+                     "replayed on the real library with the spatial index observed through hooks after every call and "
+                     "compared with the model (Trace_Caches); (iii) insertion histories with duplicates and reused uuids "
+                     "(Trace_API). distinct non-trivial = distinct replayed histories / Insert events refused as duplicates",
+                nontrivial=lambda e: (("hist", e.get("tag")) if e["ev"] == "Reset" and str(e.get("tag", "")).startswith("caches")
+                                      else ((e["ev"], json.dumps(e.get("args"), sort_keys=True), e.get("tag"))
+                                            if e["ev"] == "Insert" and e.get("res", {}).get("err") in ("DuplicateCoordinates", "DuplicateUuid") else None))),
+    "C03": dict(level="fault_enumeration", families=[("remove", 8, 16), ("insert", 8, 16), ("flips", 8, 16), ("repair", 8, 16)],
+                rule="every mutating call that returned Err or Skipped in the insert/remove/flip/repair histories "
+                     "(natural failures: duplicates, reused uuids, degenerate points, non-flippable / boundary / "
+                     "out-of-range / stale / foreign handles, repair failures); distinct non-trivial = distinct "
+                     "failed mutating events (kind, args, history tag)",
+                nontrivial=lambda e: ((e["ev"], json.dumps(e.get("args"), sort_keys=True), e.get("tag"))
+                                      if e["ev"] in ("Insert", "Remove", "Flip", "Repair")
+                                      and e.get("res", {}).get("kind") in ("Err", "Skipped") else None)),
+}
+
+
